@@ -43,7 +43,7 @@ type Case struct {
 	Opts     gen.WriterOpts `json:"opts"`
 }
 
-var keyLeaves = []string{"int32", "int64", "uint32", "uint64", "int8", "float", "double", "string", "bytes", "flba:3", "uuid", "bool", "date", "dec64:18:4", "decflba:5:10:3"}
+var keyLeaves = []string{"int32", "int64", "uint32", "uint64", "int8", "float", "double", "string", "bytes", "flba:3", "flba:40", "uuid", "bool", "date", "dec64:18:4", "decflba:5:10:3"}
 
 func genCase(t *rapid.T) Case {
 	var c Case
